@@ -10,7 +10,9 @@
    Property predicates, evaluated on what the real code did (a failure prints "fail"):
      SetDetermined  visible modulo numbering = one-shot import of the same set
      IdStable       every (id, connection) visible before the batch is visible after it
-     OneIdPerConn   no connection has two visible ids
+     OneIdPerConn   no connection has two visible ids (a connection = a conversation of the schedule;
+                    after a set of captures with a >= 5 minute hole in a conversation: what the
+                    one-shot import of the same set shows as one stream)
      NextIdFresh    ids handed out are beyond every id used before; the reported count
                     and the "added" mask are exactly the new ids
    Conformance with Import.tla (prints "nonconf", a separate verdict class): the model's
@@ -19,7 +21,8 @@
    the log (so one deviation does not cascade). *)
 EXTENDS Import
 
-VARIABLES l
+VARIABLES l,
+          holed     \* some set of captures imported so far in this schedule showed a connection silent for >= 5 minutes
 
 Trace == ndJsonDeserialize("wire_trace.ndjson")
 
@@ -40,13 +43,24 @@ Strip(v) == [conv |-> v.conv, flip |-> v.flip, proto |-> v.proto, c |-> v.c, s |
 Brief(v) == [conv |-> v.conv, caps |-> v.caps, cd |-> v.cd, sd |-> v.sd, npk |-> v.npk, flip |-> v.flip]
 Ids(vs) == {vs[i].id : i \in DOMAIN vs}
 
-CheckProps(r, prevVis, prevNext) ==
+\* The importer splits a connection at 5 minutes of silence.  A set of captures that lacks the capture
+\* holding the packets in between can show such a silence although the conversation has none: then (and
+\* only then) "connection" is what the one-shot import of the same set shows as one stream.
+Timeout == 300000
+PktsOf(w, S, c) == SelectSeq(w, LAMBDA p : p.file \in S /\ p.c = c /\ p.k # "bulk")
+HoleFree(w, S) == \A c \in {w[i].c : i \in DOMAIN w} :
+    LET ps == PktsOf(w, S, c) IN \A i \in 1 .. (Len(ps) - 1) : ps[i + 1].at - ps[i].at < Timeout
+CountOf(vs, c) == Cardinality({i \in DOMAIN vs : vs[i].conv = c})
+
+CheckProps(r, prevVis, prevNext, strict) ==
     LET vis == r.vis
         newIds == Ids(vis) \ Ids(prevVis)
     IN /\ Chk(r.err = "", r, "import-error", r.err, "")
        \* OneIdPerConn
-       /\ \A i, j \in DOMAIN vis : Chk(i = j \/ vis[i].conv # vis[j].conv \/ vis[i].conv = 0, r, "OneIdPerConn",
-                                       <<vis[i].id, vis[j].id>>, vis[i].tuple)
+       /\ \A i, j \in DOMAIN vis :
+            Chk(\/ i = j \/ vis[i].conv # vis[j].conv \/ vis[i].conv = 0
+                \/ (~strict /\ CountOf(vis, vis[i].conv) <= CountOf(r.one, vis[i].conv)),
+                r, "OneIdPerConn", <<vis[i].id, vis[j].id>>, vis[i].tuple)
        /\ \A i \in DOMAIN vis : Chk(vis[i].conv # 0, r, "unknown-stream", vis[i].tuple, "")
        \* IdStable
        /\ \A i \in DOMAIN prevVis :
@@ -85,7 +99,7 @@ CheckConf(r) ==
                     [add |-> Range(r.add), upd |-> Range(r.upd), rst |-> Range(r.rst)], res.masks)
             /\ Conf(res.next = r.next, r, "next", r.next, res.next)
 
-TraceInit == Init /\ l = 0
+TraceInit == Init /\ l = 0 /\ holed = FALSE
 
 TraceNext ==
     /\ l < Len(Trace)
@@ -95,11 +109,14 @@ TraceNext ==
        THEN /\ world' = WorldOf(r.sched.wire)
             /\ imported' = {} /\ files' = <<>> /\ nextId' = 0 /\ hist' = <<>>
             /\ lastMasks' = [add |-> {}, upd |-> {}, rst |-> {}]
+            /\ holed' = FALSE
        ELSE LET first    == r.n = 1
                 prevVis  == IF first THEN <<>> ELSE Trace[l].vis
                 prevNext == IF first THEN 0 ELSE Trace[l].next
-            IN /\ CheckProps(r, prevVis, prevNext)
-               /\ CheckConf(r)
+                h        == holed \/ ~HoleFree(Trace[l + 1 - r.n].sched.wire, Range(r.imported))
+            IN /\ CheckProps(r, prevVis, prevNext, ~h)
+               /\ IF h THEN TRUE ELSE CheckConf(r)     \* Import.tla has no clock: it speaks about hole-free histories
+               /\ holed' = h
                \* bind the model state to the log
                /\ files' = IF DOMAIN RealFile(r) = {} THEN files ELSE Append(files, RealFile(r))
                /\ nextId' = r.next
@@ -108,7 +125,7 @@ TraceNext ==
                /\ lastMasks' = [add |-> Range(r.add), upd |-> Range(r.upd), rst |-> Range(r.rst)]
                /\ UNCHANGED world
 
-TraceSpec == TraceInit /\ [][TraceNext]_<<vars, l>>
+TraceSpec == TraceInit /\ [][TraceNext]_<<vars, l, holed>>
 
 TraceDone == l = Len(Trace) => PrintT("@@J" \o ToJson([done |-> l]))
 =============================================================================
